@@ -54,6 +54,8 @@ class OptAlias(Alias):
 
 
 def check(model, R, tier):
+    from sa.rules_modtree import check_optimizer_ctor
+    check_optimizer_ctor(model, R, 'C08')
     R.rule('C08.OWN', 'every value stored into optimizer state is fresh storage: it may not alias the parameter\'s gradient buffer or data on any path', floor=5)
     R.rule('C08.GRAD-CONST', 'step() performs no in-place effect on storage that may alias a parameter\'s gradient buffer (may-alias abstract interpretation): the gradient is read-only for the optimizer', floor=3)
     R.rule('C08.INPLACE', 'the parameter update is an augmented assignment on p.data inside the loop over self.parameters (no rebinding of the storage)', floor=3)
